@@ -41,7 +41,8 @@ StringTokenizer::StringTokenizer(const std::string& s, const std::string& delimi
     string::size_type index = 0;
     while (index != s.npos)
     {
-      string::size_type newIndex = s.find(delimiters, index);
+      // An empty delimiter separates nothing (it would be found at every position, forever).
+      string::size_type newIndex = delimiters.empty() ? s.npos : s.find(delimiters, index);
       if (newIndex != s.npos)
       {
         tokens_.push_back(s.substr(index, newIndex - index));
